@@ -27,3 +27,16 @@ ASSUMPTIONS = ["std::ranlux24_base, std::mt19937 and the std/boost distributions
 TRUSTED = ["extraction rewrite table of units/C20.py", "stubs in units/C20/seed.c", "CBMC 6.11"]
 NOT_COVERED = ["bit-identical whole-planner runs across processes (unordered containers keyed by pointers, wall-clock use inside planners): a 2-run hyperproperty of whole programs",
                "RNG::RNG() / RNG::RNG(seed) initialiser lists, SphericalData::reset loop"]
+
+MISC_CPPS = ['src/ompl/util/src/RandomNumbers.cpp']
+NATIVE = [
+    dict(name="c20_native_search", driver="native/misc_native.cpp", link_ompl=True, unit_cpps=MISC_CPPS, args=lambda tier, seed: ["c20", seed, 500 if tier == "quick" else 50000], timeout=900),
+]
+
+
+def replay(ur, scratch, seed):
+    """Search the real classes for a failing input (native/misc_native.cpp, mode c20)."""
+    from vf import native as N, cbmc as C
+    exe = N.build_driver("native/misc_native.cpp", scratch, link_ompl=True, unit_cpps=MISC_CPPS)
+    r = C.run_cmd([exe, "c20", str(seed), "12500"], 600, env=N.run_env())
+    return dict(found=(r["rc"] == 1), driver="native/misc_native.cpp", args=["c20", seed, 12500], link_ompl=True, unit_cpps=MISC_CPPS, output=r["out"][-2500:])
